@@ -413,6 +413,15 @@ def check_property(prop, tier, seed, rebaseline=False, jobs=None):
             scanned.append(f"assumed contract (not verified here; callers are checked against it): {k.split(':')[1]} ensures {c.get('ensures')} raises {sorted(c.get('raises', {}))}")
         for ax in c.get("axioms", []):
             scanned.append(f"assumed lemma in the proof of {k.split(':')[1]}: {ax}")
+        if c.get("prop", prop) != prop and not c.get("assumed"):
+            scanned.append(f"contract of {k.split(':')[1]} is the one discharged under {c.get('prop')} (callers here are checked against it"
+                           + (f"; restricted to the postconditions {c.get('ensures')}" if len(c.get("ensures", [])) <= 4 else "") + ")")
+        if c.get("opaque_funcs") and not c.get("assumed"):
+            scanned.append(f"in the proof of {k.split(':')[1]} the list functions {list(c['opaque_funcs'])} are uninterpreted (their definitions are hidden; only what the listed lemmas state is used)")
+        if c.get("dict_membership_only") and not c.get("assumed"):
+            scanned.append(f"in the proof of {k.split(':')[1]} `d[k] = v` on a dictionary is modelled by membership and lookup only (the position of a new key is left unspecified: an over-approximation)")
+        if c.get("external"):
+            scanned.append(f"{k.split(':')[1]} is a library function without source in the repository: its contract is a model")
     ev = {"property_id": prop, "tier": tier, "seed": seed, "level": level, "coverage": cov,
           "assumptions": list(getattr(mod, "ASSUMPTIONS", [])) + scanned, "wall_s": wall, "violations": len(violations)}
     try:
